@@ -99,6 +99,8 @@ def run_c07(res, tier, seed):
     wss += [deep_module_workspace(rng) for _ in range(4 if tier == "quick" else 40)]
     from p_refs import variant_label_workspace
     wss += [variant_label_workspace(rng) for _ in range(4 if tier == "quick" else 40)]
+    from p_refs import lookalike_workspace
+    wss += [lookalike_workspace(rng) for _ in range(4 if tier == "quick" else 40)]
     from p_refs import run_expected_groups
     # the recorded findings' own inputs (workspace + the rename that shows it), replayed on every run
     from p_ide import FilesOnly
